@@ -300,10 +300,49 @@ func JoinChildren() {
 	}
 }
 
+// Step accounting: every instrumented statement counts as one step, inside and
+// outside simulated runs. Steps are the deterministic stand-in for time that the
+// code under test spends in its own loops: a budget can be armed, and the
+// statement that exceeds it panics with StepBudgetExceeded (and so does every
+// later one until the budget is reset, so that loops unwind even where the code
+// under test recovers from panics).
+var (
+	stepCount int64
+	stepLimit int64
+	tripped   bool
+)
+
+// StepBudgetExceeded is the panic value raised when the armed budget runs out.
+type StepBudgetExceeded struct{ Limit int64 }
+
+func (e StepBudgetExceeded) Error() string {
+	return "simrt: step budget exceeded"
+}
+
+// ResetSteps zeroes the step counter and arms a budget (0: none).
+//
+//go:norace
+func ResetSteps(limit int64) { stepCount, stepLimit, tripped = 0, limit, false }
+
+// Steps returns the number of instrumented statements executed since ResetSteps.
+//
+//go:norace
+func Steps() int64 { return stepCount }
+
+// Tripped reports whether the armed budget was exceeded.
+//
+//go:norace
+func Tripped() bool { return tripped }
+
 // Yield is a scheduling point; site identifies the statement about to run.
 //
 //go:norace
 func Yield(site int32) {
+	stepCount++
+	if stepLimit > 0 && stepCount > stepLimit {
+		tripped = true
+		panic(StepBudgetExceeded{stepLimit})
+	}
 	if !active {
 		return
 	}
